@@ -59,4 +59,17 @@ def fac0 : Factory := fun c => if c = code then some Gen.Packs.LogSinkPack.r els
 
 theorem fac0_ok : Fac fac0 := by simp [Fac, fac0]
 
+/-- the batch bytes are C03's container encoding of the records (`ZipPack.SetRecords`: the packs one
+    after the other, each with its type code) -/
+theorem encMany_is_writePacks (xs : List Rec) : Prim.encMany codec.enc xs = writePacks (xs.map pv) := by
+  induction xs with
+  | nil => rfl
+  | cons x xs ih => simp only [Prim.encMany, List.map_cons, writePacks, ih]; rfl
+
+/-- what travels for the tag section is the record's `TagHash` field as it is and its `Tags` as they
+    are — the format (and the code: "stale hash, new tags") relates the two in no way -/
+theorem carried_hash_and_tags (x : Rec) :
+    ("TagHash", x "TagHash") ∈ (pv x).carried.2 ∧ ("Tags", x "Tags") ∈ (pv x).carried.2 := by
+  simp [pv, PV.carried, Packs.Hand.LogSinkPack.w, Gen.Packs.LogSinkPack.w, Packs.Hand.tagSection, L.expect]
+
 end ZipSender.LogSink
